@@ -43,7 +43,8 @@ ClassKinds     == GeneratedBases \cup FixedClasses \cup {"none"}                
 TypedKinds == {"int", "str", "float_int", "float_frac", "bool", "opt_none", "opt_some", "union", "list_int", "list_str",
                "list_list", "dict_str_int", "dict_nested", "any_json", "model", "model_nested", "opt_model", "list_model",
                "dict_model", "list_nested_model", "event", "event_ser", "enum", "str_enum", "datetime_aware",
-               "datetime_naive", "tuple_typed", "set_typed"}
+               "datetime_naive", "tuple_typed", "set_typed",
+               "factory_unset"}      \* left unset by the caller, filled by a default_factory that never returns the same value twice
 \* values of untyped slots (dynamic fields, StopEvent.result): JSON values are demanded back unchanged ...
 JsonKinds  == {"int", "str", "float_int", "float_frac", "bool", "none", "list", "dict", "nested", "tagged_lookalike"}
 \* ... values that are not JSON values cannot be restored by an untyped slot: recorded, never demanded
